@@ -1,7 +1,7 @@
 """Run every translator (each writes its coq/Gen file, or a failure stub)."""
 import importlib
 
-MODULES = ["gen_dialect", "gen_sites", "gen_codegen", "gen_split"]
+MODULES = ["gen_dialect", "gen_sites", "gen_codegen", "gen_split", "gen_serde", "gen_entry"]
 
 
 def generate_all():
